@@ -232,6 +232,29 @@ def gen_valid(di, rng, stored=False):
     raise ValueError(t)
 
 
+def zero_like(di):
+    """the valid value that is 'false' in python terms (0, 0.0, False, '', b'', ()), as JSON - or None when there is none"""
+    t = di['type']
+    if t == 'int':
+        return 0 if di['min'] <= 0 <= di['max'] else None
+    if t == 'scaled':
+        lo, hi = refdt.scaled_limits(di)
+        return 0 if lo <= 0 <= hi else None
+    if t == 'double':
+        return 0.0 if di.get('min', 0.0) <= 0.0 <= di.get('max', 0.0) else None
+    if t == 'bool':
+        return False
+    if t == 'enum':
+        return 0 if 0 in di['members'].values() else None
+    if t == 'string':
+        return '' if not di.get('minchars', 0) else None
+    if t == 'blob':
+        return '' if not di.get('minbytes', 0) else None
+    if t == 'array':
+        return [] if not di.get('minlen', 0) else None
+    return None
+
+
 def all_blob_bytes():
     return base64.b64encode(bytes(range(256))).decode()
 
